@@ -1,10 +1,240 @@
-//! C06 — not built yet.
-use crate::ev::Ctx;
-pub fn run(_ctx: &Ctx) -> i32 {
-    println!("INCONCLUSIVE property=C06 check not built yet");
-    2
+//! C06 — round trip and idempotence of xt's own output.
+//!
+//! Self-differential, no reference implementation: (i) xt(B->B)(o) == o byte
+//! for byte for o = xt(A->B)(x), for every x xt can translate to B (common
+//! model plus extensions); (ii) for common-model x, xt(B->A)(xt(A->B)(x)) ==
+//! xt(A->A)(x) byte for byte (B = TOML: equal values modulo TOML reordering).
+
+use serde_json::{json, Value};
+
+use crate::ev::{self, Acc, Ctx, Finish, Violation};
+use crate::fmts::{Fmt, ALL};
+use crate::gen::{gen_doc, gen_extension_scalar, tomlify, Classes, GenOpts};
+use crate::model::{hex, preview, toml_match, unhex, Val};
+use crate::mon::Sched;
+use crate::read::read_stream;
+use crate::rng::Rng;
+use crate::run::{run_mode, Mode};
+use crate::spell::{spell, Feats};
+
+fn pick_mode(rng: &mut Rng) -> Mode {
+    match rng.below(4) {
+        0 | 1 => Mode::Slice,
+        2 => Mode::Reader(Sched::One),
+        _ => Mode::Reader(Sched::Random(rng.next(), 32)),
+    }
 }
-pub fn replay(_case: &serde_json::Value) -> i32 {
-    println!("replay not built yet");
-    2
+
+fn case_json(x: &[u8], a: Fmt, b: Fmt, m1: &Mode, m2: &Mode, clause: &str) -> Value {
+    json!({"input_hex": hex(x), "input_preview": preview(x, 300), "a": a.name(), "b": b.name(), "mode_hop1": m1.describe(), "mode_hop2": m2.describe(), "clause": clause})
+}
+
+/// Clause (i): fixed point. Returns false if x is not translatable to B.
+pub fn fixed_point(x: &[u8], a: Fmt, b: Fmt, m1: &Mode, m2: &Mode, has_f32: bool, acc: &mut Acc) -> bool {
+    let o1 = run_mode(x, m1, Some(a), b);
+    acc.evals += 1;
+    if !o1.verdict.is_ok() {
+        acc.count("not_translatable_skipped");
+        if o1.verdict.is_panic() {
+            acc.violation(Violation { sig: format!("{}->{} panic", a.name(), b.name()), case: case_json(x, a, b, m1, m2, "i"), observed: o1.verdict.show(), expected: "no panic".into() });
+        }
+        return false;
+    }
+    let o2 = run_mode(&o1.out, m2, Some(b), b);
+    acc.count(&format!("fixed_point_{}_{}", a.name(), b.name()));
+    if !o2.verdict.is_ok() || o2.out != o1.out {
+        // Known finding: a binary32 value is written to a text format with the
+        // shortest binary32 digits; read back it is a binary64 and is written with
+        // binary64 digits. Same value, different bytes.
+        if has_f32 && b != Fmt::Msgpack && o2.verdict.is_ok() && crate::known::listed("C06", "C06-f32-text-not-fixed-point") {
+            if let (Ok(d1), Ok(d2)) = (read_stream(b, &o1.out), read_stream(b, &o2.out)) {
+                if d1 == d2 {
+                    acc.known("C06-f32-text-not-fixed-point", || format!("{}->{}: [{}] vs [{}]", a.name(), b.name(), preview(&o1.out, 60), preview(&o2.out, 60)));
+                    return true;
+                }
+            }
+        }
+        acc.violation(Violation {
+            sig: format!("fixed point {}->{}->{}: {}", a.name(), b.name(), b.name(), if o2.verdict.is_ok() { "bytes differ".to_string() } else { crate::c02_mask(&ev::truncate(o2.verdict.text(), 60)) }),
+            case: case_json(x, a, b, m1, m2, "i"),
+            observed: format!("o = [{}]; xt({}->{})(o) = {} [{}]", preview(&o1.out, 200), b.name(), b.name(), o2.verdict.show(), preview(&o2.out, 200)),
+            expected: "the same bytes".into(),
+        });
+    }
+    true
+}
+
+/// Clause (ii): round trip for common-model documents.
+pub fn round_trip(x: &[u8], a: Fmt, b: Fmt, m1: &Mode, m2: &Mode, acc: &mut Acc) {
+    let direct = run_mode(x, m1, Some(a), a);
+    let there = run_mode(x, m2, Some(a), b);
+    acc.evals += 1;
+    if !direct.verdict.is_ok() || !there.verdict.is_ok() {
+        acc.violation(Violation { sig: format!("round trip {}->{}: translation of a common-model document failed", a.name(), b.name()), case: case_json(x, a, b, m1, m2, "ii"), observed: format!("A->A: {}; A->B: {}", direct.verdict.show(), there.verdict.show()), expected: "both succeed".into() });
+        return;
+    }
+    let back = run_mode(&there.out, m1, Some(b), a);
+    acc.count(&format!("round_trip_{}_{}", a.name(), b.name()));
+    let ok = if !back.verdict.is_ok() {
+        false
+    } else if b == Fmt::Toml || a == Fmt::Toml {
+        // values equal modulo TOML's table reordering
+        match (read_stream(a, &direct.out), read_stream(a, &back.out)) {
+            (Ok(d), Ok(r)) => d.len() == r.len() && d.iter().zip(r.iter()).all(|(p, q)| toml_match(p, q) || toml_match(q, p) || p == q),
+            _ => back.out == direct.out,
+        }
+    } else {
+        back.out == direct.out
+    };
+    if !ok {
+        acc.violation(Violation {
+            sig: format!("round trip {}->{}->{} differs from {}->{}", a.name(), b.name(), a.name(), a.name(), a.name()),
+            case: case_json(x, a, b, m1, m2, "ii"),
+            observed: format!("A->A = [{}]; B->A(A->B) = {} [{}]; A->B = [{}]", preview(&direct.out, 160), back.verdict.show(), preview(&back.out, 160), preview(&there.out, 160)),
+            expected: "identical bytes (equal values modulo reordering when TOML is involved)".into(),
+        });
+    }
+}
+
+/// A document with one extension node planted at a random position.
+fn with_extension(rng: &mut Rng, cl: &mut Classes) -> Val {
+    let base = gen_doc(rng, &GenOpts { max_depth: 3, max_width: 4, root_collection: true, ..GenOpts::common() }, cl);
+    let ext = gen_extension_scalar(rng);
+    fn plant(v: &mut Val, ext: &Val, rng: &mut Rng) {
+        match v {
+            Val::Seq(xs) => {
+                if xs.is_empty() || rng.chance(1, 3) {
+                    xs.push(ext.clone());
+                } else {
+                    let i = rng.below(xs.len());
+                    plant(&mut xs[i], ext, rng);
+                }
+            }
+            Val::Map(m) => {
+                if m.is_empty() || rng.chance(1, 3) {
+                    if rng.chance(1, 3) && !matches!(ext, Val::Float(_)) {
+                        // non-string key
+                        let key = match rng.below(4) {
+                            0 => Val::Int(rng.below(1000) as i128 - 500),
+                            1 => Val::Bool(rng.chance(1, 2)),
+                            2 => Val::Null,
+                            _ => Val::Seq(vec![Val::Int(1), Val::s("k")]),
+                        };
+                        m.push((key, Val::Int(1)));
+                    } else {
+                        m.push((Val::Str(format!("ext{}", m.len())), ext.clone()));
+                    }
+                } else {
+                    let i = rng.below(m.len());
+                    plant(&mut m[i].1, ext, rng);
+                }
+            }
+            other => *other = ext.clone(),
+        }
+    }
+    let mut v = base;
+    plant(&mut v, &ext, rng);
+    v
+}
+
+fn can_spell(f: Fmt, v: &Val) -> bool {
+    match f {
+        Fmt::Msgpack => !v.any(|x| matches!(x, Val::Datetime(_)) || matches!(x, Val::Int(i) if *i >= (1i128 << 64))),
+        Fmt::Yaml => !v.any(|x| matches!(x, Val::Bytes(_) | Val::F32(_) | Val::Ext(..) | Val::Datetime(_))),
+        Fmt::Json => v.is_common(),
+        Fmt::Toml => v.is_map() && !v.any(|x| matches!(x, Val::Null | Val::Bytes(_) | Val::F32(_) | Val::Ext(..)) || matches!(x, Val::Int(i) if *i > i64::MAX as i128 || *i < i64::MIN as i128) || matches!(x, Val::Map(m) if m.iter().any(|(k, _)| !matches!(k, Val::Str(_))))),
+    }
+}
+
+pub fn run(ctx: &Ctx) -> i32 {
+    let n = ctx.size(30000, 1000000);
+    let seed = ctx.seed;
+    let acc = crate::par::run(n, 8, |i, acc| {
+        let mut rng = Rng::derive(seed, 0xc06, i as u64);
+        let mut cl = Classes::default();
+        let base = gen_doc(&mut rng, &GenOpts::common(), &mut cl);
+        let tdoc = tomlify(&base);
+        cl.add_to(acc);
+        if cl.hostile() > 0 || base.depth() >= 3 {
+            acc.distinct(&base.show());
+        }
+        acc.sample_every(997, || json!({"model_value": ev::truncate(&base.show(), 240)}));
+        for a in ALL {
+            for b in ALL {
+                let doc = if a == Fmt::Toml || b == Fmt::Toml {
+                    match &tdoc {
+                        Some(d) => d,
+                        None => continue,
+                    }
+                } else {
+                    &base
+                };
+                let mut feats = Feats::default();
+                let plain = rng_bool(&mut rng);
+                let x = spell(a, doc, &mut rng, &mut feats, plain);
+                let (m1, m2) = (pick_mode(&mut rng), pick_mode(&mut rng));
+                fixed_point(&x, a, b, &m1, &m2, false, acc);
+                round_trip(&x, a, b, &m1, &m2, acc);
+            }
+        }
+        // extensions: only clause (i), only where the source can spell the value
+        let ext = with_extension(&mut rng, &mut cl);
+        for a in [Fmt::Msgpack, Fmt::Yaml] {
+            if !can_spell(a, &ext) {
+                continue;
+            }
+            let mut feats = Feats::default();
+            let x = spell(a, &ext, &mut rng, &mut feats, false);
+            for b in ALL {
+                let (m1, m2) = (pick_mode(&mut rng), pick_mode(&mut rng));
+                acc.count("extension_documents_tried");
+                let has_f32 = ext.any(|v| matches!(v, Val::F32(_)));
+                if fixed_point(&x, a, b, &m1, &m2, has_f32, acc) {
+                    acc.count("extension_documents_translatable");
+                }
+            }
+        }
+        // TOML date-times
+        if i % 8 == 0 {
+            let dt = *rng.pick(&["1979-05-27T07:32:00Z", "1979-05-27T00:32:00-07:00", "1979-05-27T07:32:00.999999", "1979-05-27", "07:32:00", "1979-05-27 07:32:00Z"]);
+            let x = format!("when = {dt}\n[t]\nd = [{dt}, {dt}]\n");
+            for b in ALL {
+                let (m1, m2) = (pick_mode(&mut rng), pick_mode(&mut rng));
+                acc.count("toml_datetime_documents");
+                fixed_point(x.as_bytes(), Fmt::Toml, b, &m1, &m2, false, acc);
+            }
+        }
+    });
+    let rule = format!("{} generated common-model documents x 16 ordered pairs (A,B) x both clauses, with slice/reader chosen independently at each hop and conventional or hostile spelling of the input; plus per document one extension document (binary, f32, non-finite floats, non-string keys) from MessagePack and YAML to every B for clause (i), and TOML date-time documents; documents xt cannot translate to B are skipped for clause (i) as the property says; distinct non-trivial = distinct documents with a hostile-class scalar or depth >= 3", n);
+    ev::finish(
+        Finish { ctx, level: "exploration", rule, assumptions: vec!["no reference implementation: xt is compared with itself".into()], extra: serde_json::Map::new(), exhaustive: false, min_distinct: 500, must_reach: vec![("extension_documents_translatable".into(), 100), ("toml_datetime_documents".into(), 10)] },
+        acc,
+    )
+}
+
+fn rng_bool(rng: &mut Rng) -> bool {
+    rng.chance(1, 2)
+}
+
+pub fn replay(v: &Value) -> i32 {
+    let c = &v["case"];
+    let (Some(x), Some(a), Some(b), Some(m1), Some(m2)) = (c["input_hex"].as_str().and_then(unhex), c["a"].as_str().and_then(Fmt::parse), c["b"].as_str().and_then(Fmt::parse), c["mode_hop1"].as_str().and_then(Mode::parse), c["mode_hop2"].as_str().and_then(Mode::parse)) else {
+        println!("bad replay case");
+        return 2;
+    };
+    let mut acc = Acc::default();
+    if c["clause"].as_str() == Some("ii") {
+        round_trip(&x, a, b, &m1, &m2, &mut acc);
+    } else {
+        let has_f32 = crate::read::msgpack::read_all(&x).map(|d| d.iter().any(|v| v.any(|n| matches!(n, Val::F32(_))))).unwrap_or(false) && a == Fmt::Msgpack;
+        fixed_point(&x, a, b, &m1, &m2, has_f32, &mut acc);
+    }
+    println!("input [{}] a={} b={}", preview(&x, 400), a.name(), b.name());
+    if acc.vio_count > 0 {
+        println!("VIOLATION property=C06 replay=<this file> (reproduced): {}", acc.violations[0].observed);
+        1
+    } else {
+        println!("not reproduced");
+        0
+    }
 }
